@@ -1,190 +1,517 @@
 """C03 - no page exceeds the nrow row budget (structural necessary conditions).
 
-R03.1 budget ledger: every per-page row emitter of PageRenderer.render has a reservation term or a
-per-row budget term whose guard is implied by the emitter's guard; R03.2 break guard normal form and
-available rows (shared R04.1); R03.3 the width estimator receives the cell's own font and size and
-its own column width, per cell; R03.4 sibling keyword agreement of the three strategies (shared
-R04.2); R03.5 row height = data + page_by heading + subline heading, each >= 1 (shared R04.6);
-R03.6 column width per displayed column from cumulative boundaries, removed columns skipped.
+All rules follow the recognise-by-role / verify-strictly / gap-if-unrecognised policy.
+
+R03.1 budget ledger: calculate_additional_rows_per_page is decomposed into counted terms (accumulator
+increments, conditional expressions, int(bool(..)), sum(1 for ..)) each with the conditions under which
+it counts; every per-page row emitter of PageRenderer.render must have a term, a term may only be
+conditioned on the presence of what it reserves for, and its condition must be implied by the emitter's;
+R03.2 break guard normal form and available rows (shared R04.1); R03.3 the width estimator receives the
+cell's own text, font and size and its own column width, per displayed cell, and no line count is cached
+per text; R03.4 sibling keyword agreement of the three strategies (shared R04.2); R03.5 row height =
+data + page_by heading + subline heading, each >= 1 (shared R04.6); R03.6 column width per displayed
+column from cumulative boundaries, removed columns skipped, removed positions taken in the frame that is
+handed to the estimator.
 """
 from __future__ import annotations
 
 import ast
 
-from ..linform import linform, single_assign_env
+from ..astmatch import assignments, guard_atoms, guards, leaves, match, resolve, strip_wrappers
 from ..pm import dotted, unparse, walk_no_nested
 from ..report import Ctx
+from .c04 import Unrecognised, _anc, _const, _enclosing_for, _params, _target_names, assign_loop, lin_local, meta_fields
+
+
+# ------------------------------------------------------------------------------------------------ reservation ledger
+
+class Term:
+    """one counted contribution to the per-page reservation"""
+
+    def __init__(self, amount: ast.AST, conds: list, iters: list, node: ast.AST):
+        self.amount, self.conds, self.iters, self.node = amount, conds, iters, node
+
+
+def _loops_of(node, fn) -> list:
+    return [p for p in _anc(node, fn) if isinstance(p, ast.For)]
+
+
+def reservation_terms(fi) -> list[Term]:
+    """decompose the function's result into counted terms; raise Unrecognised when a part of the sum cannot be interpreted"""
+    fn = fi.node
+    rets = [r for r in walk_no_nested(fn) if isinstance(r, ast.Return) and r.value is not None]
+    if len(rets) != 1:
+        raise Unrecognised(f"{fi.short} has {len(rets)} value returns")
+    aug = {}
+    plain = {}
+    for a in walk_no_nested(fn):
+        if isinstance(a, ast.AugAssign) and isinstance(a.target, ast.Name):
+            aug.setdefault(a.target.id, []).append(a)
+        elif isinstance(a, ast.Assign) and len(a.targets) == 1 and isinstance(a.targets[0], ast.Name):
+            plain.setdefault(a.targets[0].id, []).append(a)
+        elif isinstance(a, ast.AnnAssign) and isinstance(a.target, ast.Name) and a.value is not None:
+            plain.setdefault(a.target.id, []).append(a)
+    params = set(_params(fn))
+    out: list[Term] = []
+
+    def is_cond(e):
+        return isinstance(e, (ast.BoolOp, ast.Compare)) or (isinstance(e, ast.UnaryOp) and isinstance(e.op, ast.Not))
+
+    def dec(e, conds, iters, node, depth=0):
+        if depth > 12:
+            raise Unrecognised("reservation expression too deep")
+        if isinstance(e, ast.BinOp) and isinstance(e.op, ast.Add):
+            dec(e.left, conds, iters, node, depth + 1)
+            dec(e.right, conds, iters, node, depth + 1)
+        elif isinstance(e, ast.Constant) and isinstance(e.value, (int, bool)):
+            if e.value:
+                out.append(Term(e, conds, iters, node))
+        elif isinstance(e, ast.IfExp):
+            dec(e.body, conds + [(e.test, True)], iters, node, depth + 1)
+            dec(e.orelse, conds + [(e.test, False)], iters, node, depth + 1)
+        elif isinstance(e, ast.Call) and isinstance(e.func, ast.Name) and e.func.id in ("int", "bool") and len(e.args) == 1 and not e.keywords:
+            inner = e.args[0]
+            if isinstance(inner, ast.Call) and isinstance(inner.func, ast.Name) and inner.func.id == "bool" and len(inner.args) == 1:
+                out.append(Term(ast.Constant(value=1), conds + [(inner.args[0], True)], iters, node))
+            elif e.func.id == "bool" or is_cond(inner):
+                out.append(Term(ast.Constant(value=1), conds + [(inner, True)], iters, node))
+            else:
+                dec(inner, conds, iters, node, depth + 1)
+        elif isinstance(e, ast.Call) and isinstance(e.func, ast.Name) and e.func.id in ("sum", "len") and len(e.args) == 1 \
+                and isinstance(e.args[0], (ast.GeneratorExp, ast.ListComp)):
+            g = e.args[0]
+            c2, i2 = list(conds), list(iters)
+            for gen in g.generators:
+                i2.append((gen.target, gen.iter))
+                c2.extend((t, True) for t in gen.ifs)
+            if e.func.id == "len":
+                out.append(Term(ast.Constant(value=1), c2, i2, node))
+            else:
+                dec(g.elt, c2, i2, node, depth + 1)
+        elif isinstance(e, ast.Name) and e.id not in params and (e.id in aug or e.id in plain):
+            for a in plain.get(e.id, []):
+                dec(a.value, conds + guards(a, fn), iters + [(lp.target, lp.iter) for lp in _loops_of(a, fn)], a, depth + 1)
+            for a in aug.get(e.id, []):
+                if not isinstance(a.op, ast.Add):
+                    raise Unrecognised(f"`{unparse(a)}`")
+                dec(a.value, conds + guards(a, fn), iters + [(lp.target, lp.iter) for lp in _loops_of(a, fn)], a, depth + 1)
+        else:
+            raise Unrecognised(f"the summand `{unparse(e)[:60]}`")
+    dec(rets[0].value, [], [], rets[0])
+    return out
+
+
+def _term_atoms(t: Term, fn) -> tuple[set, set, str]:
+    """(literal guard atoms with polarity, ingredients used by the conditions, text of conditions and iterated sources) - aliases resolved"""
+    conds = [(_reparent(resolve(c, fn)), pol) for c, pol in t.conds]
+    lits = {a.replace("bool(", "(") for a in guard_atoms(conds)}
+    used = set()
+    for c, _pol in conds:
+        for n in ast.walk(c):
+            par = getattr(n, "_parent", None)
+            if isinstance(n, ast.Attribute) and not isinstance(par, ast.Attribute):
+                used.add(unparse(n))
+            elif isinstance(n, ast.Name) and not isinstance(par, ast.Attribute) and n.id not in _NOT_ATOMS:
+                used.add(n.id)
+            elif isinstance(n, ast.Subscript) and isinstance(par, ast.Call):
+                used.add(unparse(n))
+    text = " and ".join(unparse(c) for c, _ in conds) + " | " + " ".join(unparse(resolve(it, fn)) for _t, it in t.iters)
+    return lits, used, text
+
+
+_NOT_ATOMS = ("isinstance", "None", "len", "bool", "int", "getattr", "hasattr", "True", "False")
+
+
+def _negated(atom: str) -> str:
+    if atom.startswith("!"):
+        return atom[1:]
+    if atom.endswith(" is not None"):
+        return atom[:-len(" is not None")] + " is None"
+    if atom.endswith(" is None"):
+        return atom[:-len(" is None")] + " is not None"
+    return "!" + atom
+
+
+def _reparent(e: ast.AST) -> ast.AST:
+    for n in ast.walk(e):
+        for ch in ast.iter_child_nodes(n):
+            ch._parent = n          # type: ignore[attr-defined]
+    return e
 
 
 def r03_1(ctx: Ctx) -> None:
     pm = ctx.pm
     res = pm.func("RTFDocumentService.calculate_additional_rows_per_page")
-    tr = unparse(res.node)
     rend = pm.func("PageRenderer.render")
     hdr = pm.func("PageRenderer._render_column_headers")
     asg = pm.func("PageBreakCalculator._assign_pages")
-    # (1) footnote / source / subline heading: reservation guard must be implied by (be at least as wide as) the emitter guard
-    for comp, emit in (("rtf_footnote", "encode_footnote"), ("rtf_source", "encode_source")):
-        term = f"if document.{comp} and document.{comp}.text:\n            additional_rows += 1" in tr.replace("    " * 2, "        ") or \
-            f"document.{comp} and document.{comp}.text" in tr
-        guards = [unparse(n.test) for n in walk_no_nested(rend.node) if isinstance(n, ast.If) and emit in unparse(n)]
-        implied = bool(guards) and f"document.{comp} and document.{comp}.text" in guards[0]
-        ctx.instance("R03.1", res.where(), f"ledger: {emit} (guard `{guards[0][:70] if guards else '?'}`) <-> reservation term on document.{comp}.text: {term}")
-        if not term:
+    fn = res.node
+    terms = None
+    try:
+        terms = reservation_terms(res)
+    except Unrecognised as e:
+        ctx.gap("R03.1", f"the reservation computed by {res.short} could not be decomposed into counted terms: {e}")
+    kinds: dict[str, list] = {"subline": [], "footnote": [], "source": [], "header": [], "?": []}
+    info = {}
+    for t in terms or []:
+        lits, used, text = _term_atoms(t, fn)
+        kind = "subline" if "subline_by" in text else "footnote" if "rtf_footnote" in text else "source" if "rtf_source" in text \
+            else "header" if "rtf_column_header" in text else "?"
+        kinds[kind].append(t)
+        info[id(t)] = (lits, used, text)
+    if terms is not None:
+        # every reservation term may only be conditioned on the presence of what it reserves for: a narrower
+        # guard (e.g. only when pageby_header, only when as_table) leaves rendered rows unreserved
+        for kind, ts in kinds.items():
+            for t in ts:
+                lits, used, text = info[id(t)]
+                bound = {nme for tg, _it in t.iters for nme in _target_names(tg)}
+                allowed = {
+                    "subline": {"document.rtf_body.subline_by"},
+                    "header": {"document.rtf_column_header", "document.rtf_column_header[0]", "list"} | bound | {b + ".text" for b in bound},
+                    "footnote": {"document.rtf_footnote", "document.rtf_footnote.text"},
+                    "source": {"document.rtf_source", "document.rtf_source.text"},
+                    "?": set(),
+                }[kind]
+                extra = sorted(u for u in used if u not in allowed and not any(u.startswith(a + "[") for a in allowed))
+                ctx.instance("R03.1", res.where(t.node), f"reservation term ({kind}) counted when `{text[:90]}`; atoms outside the component's presence: {extra}")
+                if kind == "?":
+                    ctx.gap("R03.1", f"a reservation term counted when `{text[:80]}` could not be attributed to a page component")
+                    continue
+                if extra:
+                    ctx.violation("R03.1", res.short, f"{kind} reservation also depends on {extra}", res.where(t.node),
+                                  f"the {kind} reservation is only made when {extra} hold(s); the {kind} row is rendered regardless, so such pages exceed nrow")
+                if not _const(t.amount, 1) and not _const(t.amount, True):
+                    ctx.violation("R03.1", res.short, f"{kind} reservation += {unparse(t.amount)}", res.where(t.node), f"the {kind} reservation is `{unparse(t.amount)}` rows instead of one per rendered row")
+    # (1) footnote / source: the reservation's condition must be implied by (be at least as wide as) the emitter's
+    for comp, emit, kind in (("rtf_footnote", "encode_footnote", "footnote"), ("rtf_source", "encode_source", "source")):
+        calls = [n for n in walk_no_nested(rend.node) if isinstance(n, ast.Call) and isinstance(n.func, ast.Attribute) and n.func.attr == emit]
+        eg = guard_atoms(guards(calls[0], rend.node), rend.node) if calls else set()
+        ts = kinds[kind]
+        ctx.instance("R03.1", res.where(), f"ledger: {emit} (guard `{sorted(eg) if calls else '?'}`) <-> {len(ts)} reservation term(s) on document.{comp}")
+        if terms is None:
+            continue
+        if not ts:
             ctx.violation("R03.1", res.short, f"no reservation for {comp}", res.where(), f"the {comp} row rendered on a page is not reserved in the per-page row budget")
-        elif not guards:
+            continue
+        if not calls:
             ctx.gap("R03.1", f"the call of {emit} could not be re-identified in PageRenderer.render")
-        elif not implied:
-            ctx.violation("R03.1", rend.short, f"{emit} guard wider than reservation", rend.where(), f"{emit} can be rendered when nothing was reserved for it")
-    term = "if document.rtf_body.subline_by:" in tr
-    eguard = [unparse(n.test) for n in walk_no_nested(rend.node) if isinstance(n, ast.If) and "_generate_subline_header" in unparse(n)]
-    ctx.instance("R03.1", res.where(), f"ledger: subline heading (guard `{eguard[0] if eguard else '?'}`) <-> reservation term on rtf_body.subline_by: {term}")
-    if not term:
+            continue
+        eleaves = {x for t, _p in guards(calls[0], rend.node) for x in leaves(resolve(t, rend.node))}
+        for t in ts:
+            lits, used, _text = info[id(t)]
+            egn = {a.replace("bool(", "(") for a in eg}
+            if lits <= egn:
+                continue
+            tl = {x for c, _p in t.conds for x in leaves(resolve(c, fn))}
+            if any(_negated(a) in egn for a in lits):
+                ctx.violation("R03.1", rend.short, f"{emit} guard contradicts reservation", rend.where(calls[0]),
+                              f"the {kind} row is reserved when {sorted(lits)} but rendered when {sorted(egn)}: whenever it is rendered nothing was reserved for it")
+            elif tl <= eleaves:
+                ctx.gap("R03.1", f"the {kind} reservation condition {sorted(lits)} could not be compared with the guard {sorted(eg)} of {emit}")
+            else:
+                ctx.violation("R03.1", rend.short, f"{emit} guard wider than reservation", rend.where(calls[0]), f"{emit} can be rendered when nothing was reserved for it")
+    # subline heading: rendered on every page of a subline_by document
+    sub_calls = [n for n in walk_no_nested(rend.node) if isinstance(n, ast.Call) and isinstance(n.func, ast.Attribute) and n.func.attr == "_generate_subline_header"]
+    eguard = sorted(guard_atoms(guards(sub_calls[0], rend.node), rend.node)) if sub_calls else "?"
+    ctx.instance("R03.1", res.where(), f"ledger: subline heading (guard `{eguard}`) <-> {len(kinds['subline'])} reservation term(s) on rtf_body.subline_by")
+    if terms is not None and not kinds["subline"]:
         ctx.violation("R03.1", res.short, "no reservation for subline heading", res.where(), "the subline_by heading paragraph is not reserved in the per-page row budget")
     # (2) column headers: reserved iff text is not None; rendered also when text is auto-generated
-    reserved_guard = "header.text is not None" in tr
-    auto = [n for n in ast.walk(hdr.node) if isinstance(n, ast.If) and "header_copy.text is None" in unparse(n.test) and "as_colheader" in unparse(n.test)]
-    auto_reserved = "as_colheader" in tr
-    ctx.instance("R03.1", res.where(), f"ledger: column header rows: reserved when `header.text is not None`: {reserved_guard}; automatic headers (text None, as_colheader) rendered: {bool(auto)}, reserved: {auto_reserved}")
-    if not reserved_guard:
-        ctx.violation("R03.1", res.short, "no reservation for column headers", res.where(), "column header rows are not reserved in the per-page row budget")
-    if auto and not auto_reserved:
-        ctx.violation("R03.1", res.short, "automatic column header not reserved", res.where(),
-                      "a column header whose text is generated from the column names (text=None, as_colheader=True - the default) is rendered on every header page "
-                      "but the reservation only counts headers with explicit text: such pages carry one row more than nrow")
+    text_guarded = [t for t in kinds["header"] if any(a.endswith(".text is not None") for a in info[id(t)][0])]
+    auto = [n for n in ast.walk(hdr.node) if isinstance(n, ast.If) and any(x.endswith(".text is None") for x in guard_atoms([(n.test, True)]))
+            and any(x.endswith(".as_colheader") for x in leaves(n.test))]
+    auto_reserved = any("as_colheader" in info[id(t)][2] for t in kinds["header"])
+    ctx.instance("R03.1", res.where(), f"ledger: column header rows: {len(kinds['header'])} reservation term(s), {len(text_guarded)} only for headers with explicit text; "
+                 f"automatic headers (text None, as_colheader) rendered: {bool(auto)}, reserved: {auto_reserved}")
+    if terms is not None:
+        if not kinds["header"]:
+            ctx.violation("R03.1", res.short, "no reservation for column headers", res.where(), "column header rows are not reserved in the per-page row budget")
+        elif auto and not auto_reserved and len(text_guarded) == len(kinds["header"]):
+            ctx.violation("R03.1", res.short, "automatic column header not reserved", res.where(),
+                          "a column header whose text is generated from the column names (text=None, as_colheader=True - the default) is rendered on every header page "
+                          "but the reservation only counts headers with explicit text: such pages carry one row more than nrow")
     # headers are rendered only on pages with needs_header, reservation is unconditional: fine (reservation wider)
-    # every reservation term may only be conditioned on the presence of what it reserves for: a narrower
-    # guard (e.g. only when pageby_header, only when as_table) leaves rendered rows unreserved
-    allowed = {
-        "subline": {"document.rtf_body.subline_by"},
-        "header": {"document.rtf_column_header", "document.rtf_column_header[0]", "section_headers", "header", "header.text", "list"},
-        "footnote": {"document.rtf_footnote", "document.rtf_footnote.text"},
-        "source": {"document.rtf_source", "document.rtf_source.text"},
-    }
-    for aug in [a for a in ast.walk(res.node) if isinstance(a, ast.AugAssign) and unparse(a.target) == "additional_rows"]:
-        tests = [t for t in _guards(aug, res.node)]
-        txt = " and ".join(unparse(t) for t in tests)
-        kind = "subline" if "subline_by" in txt else "footnote" if "rtf_footnote" in txt else "source" if "rtf_source" in txt else "header"
-        used = set()
-        for t in tests:
-            for n in ast.walk(t):
-                if isinstance(n, ast.Attribute) and not isinstance(getattr(n, "_parent", None), ast.Attribute):
-                    used.add(unparse(n))
-                elif isinstance(n, ast.Name) and not isinstance(getattr(n, "_parent", None), ast.Attribute) and n.id not in ("isinstance", "None", "len"):
-                    used.add(n.id)
-                elif isinstance(n, ast.Subscript) and isinstance(getattr(n, "_parent", None), ast.Call):
-                    used.add(unparse(n))
-        extra = sorted(u for u in used if u not in allowed[kind] and not any(u.startswith(a + "[") for a in allowed[kind]))
-        ctx.instance("R03.1", res.where(aug), f"reservation term ({kind}) guarded by `{txt[:90]}`; atoms outside the component's presence: {extra}")
-        if extra:
-            ctx.violation("R03.1", res.short, f"{kind} reservation also depends on {extra}", res.where(aug),
-                          f"the {kind} reservation is only made when {extra} hold(s); the {kind} row is rendered regardless, so such pages exceed nrow")
-        if unparse(aug.value) != "1":
-            ctx.violation("R03.1", res.short, f"{kind} reservation += {unparse(aug.value)}", res.where(aug), f"the {kind} reservation is `{unparse(aug.value)}` rows instead of one per rendered row")
     # (3) in-page spanning rows and data rows: per-row budget terms (R03.5)
     c = pm.func("PageBreakCalculator.calculate_row_metadata")
-    tc = unparse(c.node)
-    ok = "pageby_rows = self._calculate_header_rows(header_text, total_width, font_size=int(font_size))" in tc
-    ctx.instance("R03.1", c.where(), f"ledger: in-page group heading rows <-> pageby_header_rows per group-start row: {ok}")
-    if not ok:
-        ctx.violation("R03.1", c.short, "no budget for in-page headings", c.where(), "spanning heading rows inside a page are not budgeted with the row that starts the group")
+    try:
+        _node, md = meta_fields(c)
+        pv = md.get("pageby_header_rows")
+        if not isinstance(pv, ast.Name):
+            raise Unrecognised(f"the page_by heading rows of a row (`{unparse(pv)}`) are not a local variable")
+        vals = assignments(c.node).get(pv.id, [])
+        from_estimator = [v for v in vals if isinstance(v, ast.Call) and dotted(v.func).endswith("_calculate_header_rows")]
+        ctx.instance("R03.1", c.where(), f"ledger: in-page group heading rows <-> `{pv.id}` per group-start row, assigned {[unparse(v)[:50] for v in vals]}")
+        if not from_estimator:
+            if vals and all(isinstance(v, ast.Constant) and not v.value for v in vals):
+                ctx.violation("R03.1", c.short, "no budget for in-page headings", c.where(), "spanning heading rows inside a page are not budgeted with the row that starts the group")
+            else:
+                ctx.gap("R03.1", f"how the in-page heading rows `{pv.id}` are estimated could not be re-identified")
+    except Unrecognised as e:
+        ctx.gap("R03.1", str(e))
     # (4) page-top continuation headings: emitted at the top of EVERY page, budgeted only where the first row starts a group
-    top = [n for n in walk_no_nested(rend.node) if isinstance(n, ast.If) and "pageby_header_info" in unparse(n.test) and "encode_spanning_row" in unparse(n)]
-    tguard = unparse(top[0].test) if top else "?"
+    span = [n for n in walk_no_nested(rend.node) if isinstance(n, ast.Call) and isinstance(n.func, ast.Attribute) and n.func.attr == "encode_spanning_row"]
+    tg = sorted(guard_atoms(guards(span[0], rend.node), rend.node)) if span else []
+    top = bool(span) and any("pageby_header_info" in a for a in tg)
+    tguard = " and ".join(tg)
     depends_on_group_start = "is_group_start" in tguard or "continu" in tguard
-    ta = unparse(asg.node)
-    resets = [unparse(a.value) for n in ast.walk(asg.node) if isinstance(n, ast.If) for a in n.body if isinstance(a, ast.Assign) and unparse(a.targets[0]) == "current_rows"]
-    budgeted_at_break = any(r != "0" for r in resets)
-    ctx.instance("R03.1", rend.where(top[0]) if top else rend.where(), f"ledger: page-top group headings emitted under `{tguard[:80]}`; after a break current_rows restarts at {resets}")
-    if top and not depends_on_group_start and not budgeted_at_break:
-        ctx.violation("R03.1", asg.short, "page-top continuation heading not budgeted", asg.where(),
-                      "the group heading is re-emitted at the top of every continuation page (render step 7) but a page that starts inside a group is budgeted with 0 heading rows "
-                      "(current_rows restarts at 0 and only group-start rows carry pageby_header_rows): such pages hold nrow + heading rows")
+    try:
+        L = assign_loop(pm)
+        hkey = f"{L.rv}['total_rows']"
+        forms = []
+        for a in ast.walk(L.lp):
+            if isinstance(a, ast.Assign) and any(isinstance(t, ast.Name) and t.id == L.R for t in a.targets):
+                forms.append(lin_local(a.value, L.lp, L.fn))
+            elif isinstance(a, ast.AugAssign) and isinstance(a.target, ast.Name) and a.target.id == L.R:
+                lf = lin_local(a.value, L.lp, L.fn)
+                lf[L.R] = lf.get(L.R, 0) + 1
+                forms.append(lf)
+        budgeted_at_break = any(lf not in ({}, {hkey: 1}, {L.R: 1, hkey: 1}) for lf in forms)
+        ctx.instance("R03.1", rend.where(span[0]) if span else rend.where(), f"ledger: page-top group headings emitted under `{tguard[:80]}`; the fill counter is updated by {forms}")
+        if top and not depends_on_group_start and not budgeted_at_break:
+            ctx.violation("R03.1", asg.short, "page-top continuation heading not budgeted", asg.where(),
+                          "the group heading is re-emitted at the top of every continuation page (render step 7) but a page that starts inside a group is budgeted with 0 heading rows "
+                          "(current_rows restarts at 0 and only group-start rows carry pageby_header_rows): such pages hold nrow + heading rows")
+    except Unrecognised as e:
+        ctx.gap("R03.1", str(e))
     ctx.floor("R03.1", 6)
 
 
-def _guards(node, stop):
-    out = []
-    child = node
-    p = getattr(node, "_parent", None)
-    while p is not None and p is not stop:
-        if isinstance(p, ast.If):
-            out.append(p.test)
-        child = p
-        p = getattr(p, "_parent", None)
-    return list(reversed(out))
-
+# ------------------------------------------------------------------------------------------------ estimator
 
 def r03_3_6(ctx: Ctx) -> None:
     pm = ctx.pm
     c = pm.func("PageBreakCalculator.calculate_row_metadata")
-    env = single_assign_env(c.node)
-    calls = [x for x in walk_no_nested(c.node) if isinstance(x, ast.Call) and dotted(x.func) == "get_string_width"]
+    fn = c.node
+    calls = [x for x in walk_no_nested(fn) if isinstance(x, ast.Call) and dotted(x.func).split(".")[-1] == "get_string_width"]
     if len(calls) != 1:
-        ctx.violation("R03.3", c.short, f"get_string_width x{len(calls)}", c.where(), "cell text is not measured exactly once per cell")
+        ctx.gap("R03.3", f"the per-cell width measurement could not be re-identified in {c.short} ({len(calls)} calls of get_string_width)")
         return
     call = calls[0]
-    kw = {k.arg: k.value for k in call.keywords}
+    sig = ("text", "font", "font_size")
+    kw = {k.arg: k.value for k in call.keywords if k.arg}
+    for nme, a in zip(sig, call.args):
+        kw.setdefault(nme, a)
+    asg = assignments(fn)
     for arg, attr in (("font", "text_font"), ("font_size", "text_font_size")):
         v = kw.get(arg)
-        name = v.id if isinstance(v, ast.Name) else None
-        assigns = [unparse(a.value) for a in ast.walk(c.node) if isinstance(a, ast.Assign) and name and unparse(a.targets[0]) == name]
-        src = assigns or [unparse(v)]
+        if v is None:
+            src = ["<default>"]
+        else:
+            name = v.id if isinstance(v, ast.Name) else None
+            src = [unparse(x) for x in asg.get(name, [])] if name else []
+            src = src or [unparse(v)]
         dep = any(attr in s for s in src)
         ctx.instance("R03.3", c.where(call), f"estimator input {arg} <- {src}; depends on table_attrs.{attr}: {dep}")
         if not dep:
             ctx.violation("R03.3", c.short, f"estimator {arg} ignores {attr}", c.where(call),
                           f"the line estimator measures every cell with {arg}={src[-1]} regardless of the body's {attr}: a larger/wider font wraps into more lines than budgeted")
-    a0 = unparse(call.args[0]) if call.args else "?"
-    txt_src = unparse(env.get(a0)) if a0 in env else next((unparse(a.value) for a in ast.walk(c.node) if isinstance(a, ast.Assign) and unparse(a.targets[0]) == a0), "?")
-    ok_txt = txt_src == "str(df[col_name][row_idx])"
-    ctx.instance("R03.3", c.where(call), f"measured text {a0} = {txt_src}")
-    if not ok_txt:
-        ctx.violation("R03.3", c.short, "measured text " + txt_src, c.where(call), "the measured text is not the cell's own value")
-    ln = [a for a in ast.walk(c.node) if isinstance(a, ast.Assign) and unparse(a.targets[0]) == "lines_needed"]
-    forms = [unparse(a.value) for a in ln]
-    ok_ln = forms == ["max(1, int(text_width / effective_width) + 1)"]
-    tw = [unparse(a.value) for a in ast.walk(c.node) if isinstance(a, ast.Assign) and unparse(a.targets[0]) == "text_width"]
-    ew = [unparse(a.value) for a in ast.walk(c.node) if isinstance(a, ast.Assign) and unparse(a.targets[0]) == "effective_width"]
-    ctx.instance("R03.3", c.where(ln[0]) if ln else c.where(), f"lines_needed = {forms}; text_width assigned {len(tw)}x; effective_width = {ew}")
-    if not ok_ln or len(tw) != 1 or ew != ["col_width"]:
-        ctx.violation("R03.3", c.short, f"lines_needed {forms} text_width x{len(tw)} effective_width {ew}", c.where(),
-                      "a cell's line count is not computed for that cell from its measured width and its own column width on every path (e.g. cached per text regardless of column)")
-    caches = [n for n in ast.walk(c.node) if isinstance(n, ast.Subscript) and isinstance(n.ctx, ast.Store) and "cell_value" in unparse(n.slice)]
-    for n in caches:
-        ctx.violation("R03.3", c.short, "cache keyed by cell text " + unparse(n), c.where(n), "line counts are cached per cell text; the same text in a narrower column needs more lines")
-    mx = "max_lines_in_row = max(max_lines_in_row, lines_needed)" in unparse(c.node)
-    if not mx:
-        ctx.violation("R03.3", c.short, "row height not max over cells", c.where(), "a row's data height is not the maximum line count over its cells")
+    loops = [p for p in _anc(call, fn) if isinstance(p, ast.For)]
+    if len(loops) < 2:
+        ctx.gap("R03.3", "the row loop / cell loop around the width measurement could not be re-identified")
+        return
+    cell_lp, row_lp = loops[0], loops[1]
+    cv, rv = _target_names(cell_lp.target), _target_names(row_lp.target)
+    # measured text = str(df[<column of this cell>][<this row>])
+    txt = kw.get("text")
+    txt_r = resolve(txt, fn) if txt is not None else None
+    ctx.instance("R03.3", c.where(call), f"measured text {unparse(txt)} = {unparse(txt_r)}")
+    m = match("str(_D[_D.columns[_C]][_R])", txt_r) if txt_r is not None else None
+    if m is None:
+        ctx.gap("R03.3", f"the measured text `{unparse(txt_r)}` could not be recognised as the cell's own value")
+    elif not (isinstance(m["_C"], ast.Name) and m["_C"].id in cv and isinstance(m["_R"], ast.Name) and m["_R"].id in rv and unparse(m["_D"]) == "df"):
+        ctx.violation("R03.3", c.short, "measured text " + unparse(txt_r), c.where(call), "the measured text is not the cell's own value")
+    text_names = {n.id for n in ast.walk(txt) if isinstance(n, ast.Name)} if txt is not None else set()
+    # every displayed cell is measured: the measurement may only be skipped for removed columns / exhausted widths
+    removed_sets = {nme for nme, vals in asg.items() if any("removed_column_indices" in unparse(v) for v in vals)} | {"removed_column_indices"}
+    gs = guards(call, cell_lp)
+    extra = []
+    for t, pol in gs:
+        lv = {n.id for n in ast.walk(t) if isinstance(n, ast.Name)} - {"len", "set", "frozenset", "list", "tuple"}
+        if lv & removed_sets and lv <= removed_sets | set(cv):
+            continue            # removed columns are not displayed
+        if "col_widths" in lv and lv <= {"col_widths"} | _width_index_names(fn, cell_lp):
+            continue            # no boundary left
+        extra.append((t, pol, lv))
+    ctx.instance("R03.3", c.where(call), f"the measurement runs for every displayed cell; further conditions: {[unparse(t) for t, _p, _l in extra]}")
+    for t, pol, lv in extra:
+        own = {n.id for n in ast.walk(t) if isinstance(n, ast.Name)}
+        if own and own <= text_names:
+            ctx.gap("R03.3", f"the measurement is skipped depending on the cell text (`{unparse(t)}`)")
+        else:
+            shown = " and ".join(sorted(guard_atoms([(t, pol)])))
+            ctx.violation("R03.3", c.short, f"measurement conditioned on {shown}", c.where(call),
+                          f"a displayed cell is only measured when `{shown}`: cells for which it is skipped are budgeted with one line however long their text is")
+    # the row's data height is the maximum over the cells of max(1, int(text_width / own column width) + 1)
+    try:
+        _node, md = meta_fields(c)
+    except Unrecognised as e:
+        ctx.gap("R03.3", str(e))
+        return
+    d = md.get("data_rows")
+    upd = [v for v in asg.get(d.id, []) if isinstance(v, ast.Call) and dotted(v.func) == "max" and len(v.args) == 2
+           and any(isinstance(x, ast.Name) and x.id == d.id for x in v.args)] if isinstance(d, ast.Name) else []
+    if len(upd) != 1:
+        ctx.gap("R03.3", "the max-over-cells update of the row's data height could not be re-identified")
+        return
+    ln = next(x for x in upd[0].args if not (isinstance(x, ast.Name) and x.id == d.id))
+    alts = [ln] if not isinstance(ln, ast.Name) else list(asg.get(ln.id, []))
+    widths = []
+    for v in alts:
+        m = match("max(1, int(_T / _W) + 1)", v) or match("max(int(_T / _W) + 1, 1)", v)
+        tw = resolve(m["_T"], fn) if m is not None else None
+        if m is None or not (isinstance(tw, ast.Call) and dotted(tw.func).split(".")[-1] == "get_string_width"):
+            ctx.gap("R03.3", f"a line count `{unparse(v)[:60]}` that enters the row height could not be recognised as max(1, int(measured width / column width) + 1)")
+            continue
+        widths.append(m["_W"])
+    ctx.instance("R03.3", c.where(upd[0]), f"row data height = max over cells of {[unparse(v)[:60] for v in alts]}")
+    # no line count may be remembered per cell text alone (the same text in a narrower column needs more lines)
+    for n in ast.walk(fn):
+        if isinstance(n, ast.Subscript) and isinstance(n.ctx, ast.Store):
+            ks = {x.id for x in ast.walk(n.slice) if isinstance(x, ast.Name)}
+            if ks and ks <= text_names:
+                ctx.violation("R03.3", c.short, "cache keyed by cell text " + unparse(n), c.where(n), "line counts are cached per cell text; the same text in a narrower column needs more lines")
     # R03.6 column width from cumulative boundaries, skipping removed columns
-    t = unparse(c.node)
-    cw = [a for a in ast.walk(c.node) if isinstance(a, ast.Assign) and unparse(a.targets[0]) == "col_width"]
-    e2 = {unparse(a.targets[0]): a.value for a in ast.walk(c.node) if isinstance(a, ast.Assign) and len(a.targets) == 1}
-    ok = len(cw) == 1 and linform(cw[0].value) == {"current_cumulative": 1, "prev_cumulative": -1} and \
-        unparse(e2.get("current_cumulative")) == "col_widths[width_idx]" and unparse(e2.get("prev_cumulative")) == "col_widths[width_idx - 1] if width_idx > 0 else 0"
-    skip = "if col_idx in removed_indices:\n                    continue" in t or "if col_idx in removed_indices:" in t
-    adv = [a for a in ast.walk(c.node) if isinstance(a, ast.AugAssign) and unparse(a.target) == "width_idx"]
-    ok_adv = len(adv) == 1 and unparse(adv[0].value) == "1" and "width_idx = 0" in t and "removed_indices = set(removed_column_indices or [])" in t
-    ctx.instance("R03.6", c.where(cw[0]) if cw else c.where(), f"column width = boundary[k] - boundary[k-1] with k advancing over displayed columns only: {ok and skip and ok_adv}")
-    if not (ok and skip and ok_adv):
-        ctx.violation("R03.6", c.short, "column width derivation", c.where(), "the width used for wrapping is not the displayed column's own width (difference of consecutive cumulative boundaries, removed columns skipped)")
+    for w in widths:
+        wr = resolve(w, fn)
+        ctx.instance("R03.6", c.where(call), f"column width used for wrapping = {unparse(wr)}")
+        m = match("_B[_K] - (_B[_K - 1] if _K > 0 else 0)", wr)
+        if m is not None and isinstance(m["_B"], ast.Name) and m["_B"].id == "col_widths" and isinstance(m["_K"], ast.Name):
+            _width_cursor(ctx, c, cell_lp, row_lp, m["_K"].id, cv, removed_sets)
+            continue
+        m1 = match("_B[_K]", wr)
+        if m1 is not None and isinstance(m1["_B"], ast.Name) and m1["_B"].id == "col_widths":
+            ctx.violation("R03.6", c.short, "column width derivation", c.where(call),
+                          f"the width used for wrapping is the cumulative boundary `{unparse(wr)}`, not the displayed column's own width (difference of consecutive boundaries)")
+        else:
+            ctx.gap("R03.6", f"the column width `{unparse(wr)[:70]}` used for wrapping could not be recognised as a difference of consecutive cumulative boundaries")
+    _removed_positions(ctx)
+
+
+def _width_index_names(fn, cell_lp) -> set:
+    return {a.target.id for a in ast.walk(cell_lp) if isinstance(a, ast.AugAssign) and isinstance(a.target, ast.Name)}
+
+
+def _width_cursor(ctx: Ctx, c, cell_lp, row_lp, K: str, cv: list, removed_sets: set) -> None:
+    """the boundary index K starts at 0 for every row, advances by one per displayed column and not for removed columns"""
+    fn = c.node
+    adv = [a for a in ast.walk(cell_lp) if isinstance(a, ast.AugAssign) and isinstance(a.target, ast.Name) and a.target.id == K]
+    init = [a for a in ast.walk(row_lp) if isinstance(a, ast.Assign) and any(isinstance(t, ast.Name) and t.id == K for t in a.targets)]
+    ctx.instance("R03.6", c.where(cell_lp), f"boundary index `{K}`: {len(init)} reset(s) per row, advanced by {[unparse(a.value) for a in adv]} in the cell loop")
+    if not adv or not init:
+        ctx.gap("R03.6", f"the reset / advance of the boundary index `{K}` could not be re-identified")
+        return
+    if any(not _const(a.value, 0) for a in init) or any(_enclosing_for(a, fn) is not row_lp for a in init):
+        ctx.violation("R03.6", c.short, "column width derivation", c.where(init[0]), f"the boundary index `{K}` does not restart at 0 for every row")
+    if any(not (isinstance(a.op, ast.Add) and _const(a.value, 1)) for a in adv):
+        ctx.violation("R03.6", c.short, "column width derivation", c.where(adv[0]), f"the boundary index `{K}` does not advance by exactly one per displayed column")
+    # removed columns: skipped before the index advances
+    skips = [s for s in cell_lp.body if isinstance(s, ast.If) and s.body and isinstance(s.body[-1], ast.Continue)
+             and {n.id for n in ast.walk(s.test) if isinstance(n, ast.Name)} & removed_sets]
+    consults = any(isinstance(n, ast.Name) and n.id in removed_sets for n in ast.walk(cell_lp))
+    if not skips:
+        if not consults:
+            ctx.violation("R03.6", c.short, "column width derivation", c.where(cell_lp), "removed columns are not skipped: the cell loop never consults the removed column indices, so boundaries and columns fall out of step")
+        else:
+            ctx.gap("R03.6", "how removed columns are skipped in the cell loop could not be re-identified")
+        return
+    for s in skips:
+        t = resolve(s.test, fn)
+        ok = isinstance(t, ast.Compare) and len(t.ops) == 1 and isinstance(t.ops[0], ast.In) and isinstance(t.left, ast.Name) and t.left.id in cv
+        if isinstance(t, ast.Compare) and len(t.ops) == 1 and isinstance(t.ops[0], ast.NotIn):
+            ctx.violation("R03.6", c.short, "column width derivation", c.where(s), f"`{unparse(s.test)}` skips the displayed columns and measures the removed ones")
+        elif not ok:
+            ctx.gap("R03.6", f"the removed-column test `{unparse(s.test)}` could not be interpreted")
+        if any(a for a in adv if any(p is s for p in _anc(a, cell_lp))):
+            ctx.violation("R03.6", c.short, "column width derivation", c.where(s), f"the boundary index `{K}` advances for a removed column")
+    last = cell_lp.body[-1]
+    if not any(a is last for a in adv) and not any(a for a in adv if a in cell_lp.body):
+        ctx.gap("R03.6", f"the boundary index `{K}` is not advanced unconditionally at the end of the cell loop body")
+
+
+def _removed_positions(ctx: Ctx) -> None:
+    """_encode_body_section: the removed column indices handed to the estimator are positions in the frame handed over as df"""
+    pm = ctx.pm
     u = pm.func("UnifiedRTFEncoder._encode_body_section")
-    tu = unparse(u.node)
-    ok = "if col not in processed_cols:\n                        removed_column_indices.append(i)" in tu or ("for i, col in enumerate(original_df.columns):" in tu and "removed_column_indices.append(i)" in tu)
-    ok = ok and "processed_cols = set(processed_df.columns)" in tu and "removed_column_indices=removed_column_indices" in tu
-    ctx.instance("R03.6", u.where(), f"removed column indices = positions in the original frame of columns absent from the reduced frame: {ok}")
-    if not ok:
-        ctx.violation("R03.6", u.short, "removed_column_indices", u.where(), "the indices of removed columns handed to the estimator are not their positions in the original frame")
+    fn = u.node
+    ctor = [x for x in walk_no_nested(fn) if isinstance(x, ast.Call) and dotted(x.func).split(".")[-1] == "PaginationContext"
+            and any(k.arg == "removed_column_indices" for k in x.keywords)]
+    if len(ctor) != 1:
+        ctx.gap("R03.6", f"the PaginationContext that carries removed_column_indices could not be re-identified in {u.short} ({len(ctor)} candidates)")
+        return
+    kws = {k.arg: k.value for k in ctor[0].keywords if k.arg}
+    V, frame = kws["removed_column_indices"], kws.get("df")
+    if not isinstance(V, ast.Name) or frame is None:
+        ctx.gap("R03.6", f"removed_column_indices=`{unparse(V)}` / df=`{unparse(frame)}` of the PaginationContext could not be interpreted")
+        return
+    sites = []      # (node, index var, enumerate source, filter tests with polarity, yielded element)
+    for v in assignments(fn).get(V.id, []):
+        if isinstance(v, (ast.List, ast.Tuple)) and not v.elts:
+            continue
+        if isinstance(v, ast.Call) and dotted(v.func) == "list" and not v.args:
+            continue
+        if isinstance(v, ast.ListComp) and len(v.generators) == 1:
+            g = v.generators[0]
+            sites.append((v, g.target, g.iter, [(t, True) for t in g.ifs], v.elt))
+        else:
+            ctx.gap("R03.6", f"`{V.id} = {unparse(v)[:60]}` could not be interpreted")
+    for x in walk_no_nested(fn):
+        if isinstance(x, ast.Call) and isinstance(x.func, ast.Attribute) and x.func.attr == "append" and isinstance(x.func.value, ast.Name) \
+                and x.func.value.id == V.id and len(x.args) == 1:
+            lp = _enclosing_for(x, fn)
+            if lp is None:
+                ctx.gap("R03.6", f"`{unparse(x)}` outside a loop could not be interpreted")
+                continue
+            sites.append((x, lp.target, lp.iter, guards(x, lp), x.args[0]))
+    if not sites:
+        ctx.gap("R03.6", f"how `{V.id}` is filled could not be re-identified")
+        return
+    for node, target, it, tests, elt in sites:
+        ok_shape = isinstance(it, ast.Call) and dotted(it.func) == "enumerate" and len(it.args) == 1 and isinstance(target, ast.Tuple) and len(target.elts) == 2 \
+            and all(isinstance(e, ast.Name) for e in target.elts)
+        if not ok_shape:
+            ctx.gap("R03.6", f"the loop `{unparse(target)} in {unparse(it)}` that collects removed column positions could not be interpreted")
+            continue
+        iv, colv = target.elts[0].id, target.elts[1].id
+        src = strip_wrappers(resolve(it.args[0], fn))
+        src_frame = src.value if isinstance(src, ast.Attribute) and src.attr == "columns" else None
+        member = [(t, pol) for t, pol in tests if isinstance(t, ast.Compare) and len(t.ops) == 1 and isinstance(t.ops[0], (ast.In, ast.NotIn))
+                  and isinstance(t.left, ast.Name) and t.left.id == colv]
+        ctx.instance("R03.6", u.where(node), f"removed column positions: index of `{unparse(it.args[0])}` where {[('' if p else 'not ') + unparse(t) for t, p in tests]}, "
+                     f"handed over with df={unparse(frame)}")
+        if src_frame is None or len(member) != 1 or len(tests) != 1:
+            ctx.gap("R03.6", f"the selection of removed columns in `{unparse(node)[:70]}` could not be interpreted")
+            continue
+        t, pol = member[0]
+        absent = isinstance(t.ops[0], ast.NotIn) == pol
+        kept = strip_wrappers(resolve(t.comparators[0], fn))
+        kept_frame = kept.value if isinstance(kept, ast.Attribute) and kept.attr == "columns" else None
+        if kept_frame is None:
+            ctx.gap("R03.6", f"the set `{unparse(t.comparators[0])}` the columns are tested against could not be interpreted")
+            continue
+        if unparse(src_frame) != unparse(frame):
+            if unparse(src_frame) == unparse(kept_frame):
+                ctx.violation("R03.6", u.short, "removed_column_indices", u.where(node),
+                              f"the indices of removed columns are positions in the reduced frame `{unparse(src_frame)}` but the estimator indexes `{unparse(frame)}` with them")
+            else:
+                ctx.gap("R03.6", f"removed column positions are taken in `{unparse(src_frame)}`, whose relation to the frame `{unparse(frame)}` handed to the estimator could not be established")
+            continue
+        if unparse(kept_frame) == unparse(frame):
+            ctx.violation("R03.6", u.short, "removed_column_indices", u.where(node), "the columns are tested against the frame they are enumerated from: nothing (or everything) counts as removed")
+        elif not absent:
+            ctx.violation("R03.6", u.short, "removed_column_indices", u.where(node), "the positions collected are those of the columns that are still displayed, not of the removed ones")
+        if not (isinstance(elt, ast.Name) and elt.id == iv):
+            ctx.violation("R03.6", u.short, "removed_column_indices", u.where(node), f"`{unparse(elt)}` is collected instead of the column's position `{iv}`")
 
 
 def check(ctx: Ctx) -> None:
     ctx.explain(
-        "R03.1 budget ledger: each per-page emitter of PageRenderer.render is paired with its reservation term in "
-        "calculate_additional_rows_per_page or its per-row term in calculate_row_metadata, and the reservation's guard must be "
-        "at least as wide as the emitter's; R03.2 break guard / available rows as linear forms and the break decision table "
-        "(C04 R04.1); R03.3 dataflow of the estimator's font, size, text and width arguments, per cell, single assignment; "
+        "R03.1 budget ledger: calculate_additional_rows_per_page is decomposed into counted terms with their conditions; each per-page emitter "
+        "of PageRenderer.render is paired with its terms (or its per-row term in calculate_row_metadata), a term's condition may only mention the "
+        "presence of its component and must be at least as wide as the emitter's; R03.2 break guard / available rows as linear forms and the break "
+        "decision table (C04 R04.1); R03.3 dataflow of the estimator's font, size, text and width arguments, per displayed cell, no per-text cache; "
         "R03.4 strategy keyword agreement (C04 R04.2); R03.5 row height composition (C04 R04.6); R03.6 displayed-column width "
-        "from cumulative boundaries with removed columns skipped.")
+        "from cumulative boundaries with removed columns skipped, removed positions relative to the frame handed to the estimator.")
     ctx.assume("get_string_width over-estimates nothing and under-estimates nothing systematically (FreeType metrics are not analysed)")
     ctx.undecided("that the estimated line count is >= the true wrapped line count; per-page sums for concrete frames")
     r03_1(ctx)
